@@ -51,9 +51,13 @@ PROPS = {
                      "MRL.C03.create_synced", "MRL.C03.delete_synced", "MRL.C03.persist_flush", "MRL.C03.persist_flushAndFsync",
                      "MRL.C03.always_persists", "MRL.C03.onDelay_persists", "MRL.C03.buffer_empty_of_flushedAtEnd",
                      "MRL.C03.flush_then_unlink", "MRL.C03.flush_then_unlink_image", "MRL.C02.C02_torn_tail", "MRL.C02.C02_resume",
-                     "MRL.C03D.C03_durable", "MRL.C03D.C03_durable_after", "MRL.C03D.C03_power_loss", "MRL.C03D.forced_tail", "MRL.C03D.persist_tail"],
+                     "MRL.C03D.C03_durable", "MRL.C03D.C03_durable_after", "MRL.C03D.C03_power_loss", "MRL.C03D.forced_tail", "MRL.C03D.persist_tail",
+                     "MRL.C03P.C03_posix", "MRL.P.power_reduction", "MRL.P.power_prefix", "MRL.P.op_boundaryP", "MRL.P.pd_effsD",
+                     "MRL.C03P.always_tail", "MRL.C03P.onDelay_tail", "MRL.C03P.opsP_erase", "MRL.C03P.powerImage_empty_no_syncDir",
+                     "MRL.C03PX.C03_posix_reachX", "MRL.C03PX.C03_posix_reopen", "MRL.C03PX.C03_posixX_cinvx", "MRL.C03PX.reachX_history",
+                     "MRL.C03PX.effsX_calls", "MRL.C03PX.unlink_prefix_window", "MRL.PX.power_reductionX", "MRL.PX.runX_cut"],
         "examples": 4,
-        "modules": ["MRL.Props.C03", "MRL.Props.C02", "MRL.Props.C03Durable"],
+        "modules": ["MRL.Props.C03", "MRL.Props.C02", "MRL.Props.C03Durable", "MRL.Props.C03Posix", "MRL.Props.C03PosixX"],
         "kinds": "ODSFRE",
         "campaigns": {"quick": [("crash-policies", 20, 60)], "thorough": [("crash-policies", 240, 120)]},
         "rule": "as C02 under all seven policies (DoNothing, OnDelay never/always due x Flush/FlushAndFsync, Always x 2) with explicit persist "
@@ -105,8 +109,9 @@ PROPS = {
     },
     "C07": {
         "theorems": ["MRL.C07.C07_roundtrip", "MRL.C07.C07_nonvacuous", "MRL.C07.writeEntryBufs_frames", "MRL.C07.entryFrames_shape",
-                     "MRL.C07.writeEntry_bytes_count", "MRL.C07.decode_encode"],
+                     "MRL.C07.writeEntry_bytes_count", "MRL.C07.decode_encode", "MRL.C07V.C07_recover_roundtrip"],
         "examples": 2,
+        "modules": ["MRL.Props.C07", "MRL.Props.C07Recover"],
         "kinds": "BNKOSDE",
         "campaigns": {"quick": [("bytes", 32, 150), ("ops", 16, 90)], "thorough": [("bytes", 400, 300), ("ops", 200, 200)]},
         "rule": "bytes campaign through hook H4 (real RecordWriter/RecordReader over in-memory 32 KiB blocks): sequences of 1-6 entries whose "
@@ -119,9 +124,9 @@ PROPS = {
                      "MRL.C08G.negative_example", "MRL.C08G.negative_violates",
                      "MRL.C08.recover_sorted", "MRL.C08.recover_sorted'", "MRL.C08.replay_records_subset", "MRL.C08.replay_is_fold",
                      "MRL.C08.recover_records_subset", "MRL.C12.assemble_whole_entry",
-                     "MRL.C08V.C08_recover_genuine"],
+                     "MRL.C08V.C08_recover_genuine", "MRL.C08X.C08_crash_genuine_partial", "MRL.C08X.C08_crash_restart_partial"],
         "examples": 5,
-        "modules": ["MRL.Props.C08", "MRL.Props.C12", "MRL.Props.C08Genuine", "MRL.Props.C08Recover"],
+        "modules": ["MRL.Props.C08", "MRL.Props.C12", "MRL.Props.C08Genuine", "MRL.Props.C08Recover", "MRL.Props.C08Crash"],
         "kinds": "ODSN",
         "campaigns": {"quick": [("damage", 16, 70), ("bytes", 12, 120)], "thorough": [("damage", 200, 120), ("damage-aimed", 60, 100), ("bytes", 150, 250)]},
         "rule": "damage campaign: final image of a history (with delete/re-create, GC) + 10-20 damage variants each: aimed at crc/payload of "
@@ -133,9 +138,9 @@ PROPS = {
         "theorems": ["MRL.C09.C09_one_frame", "MRL.C09.damaged_buffers", "MRL.C09.undamaged", "MRL.C09.framesOf_is_layout",
                      "MRL.C12.assemble_whole_entry",
                      "MRL.C09R.C09_drop_one", "MRL.C09R.C09_drop_one_run", "MRL.C09R.C09_end_to_end",
-                     "MRL.C09V.C09_recover_one_frame"],
+                     "MRL.C09V.C09_recover_one_frame", "MRL.C09V.C09_recover_one_frame_all"],
         "examples": 2,
-        "modules": ["MRL.Props.C09", "MRL.Props.C12", "MRL.Props.C09Replay", "MRL.Props.C08Recover"],
+        "modules": ["MRL.Props.C09", "MRL.Props.C12", "MRL.Props.C09Replay", "MRL.Props.C08Recover", "MRL.Props.C09Close"],
         "kinds": "ODSN",
         "campaigns": {"quick": [("damage-aimed", 16, 70), ("bytes", 12, 120)], "thorough": [("damage-aimed", 240, 120), ("bytes", 150, 250)]},
         "rule": "aimed damage: a traced frame still on disk, alteration (bit flip / garbage / inverted byte) confined to its checksum or payload "
@@ -148,15 +153,19 @@ PROPS = {
                      "MRL.C10.recover_no_panic_img", "MRL.C10.recover_buf_bounded", "MRL.C10.replayP_total",
                      "MRL.C10.truncate_max_panics", "MRL.C10.append_max_poisons", "MRL.C10.noMaxFiles_insufficient",
                      "MRL.C11.ioCalls_bounded", "MRL.C08.recover_sorted",
-                     "MRL.C10A.writeEntry_asserts", "MRL.C10A.recover_asserts", "MRL.C10A.decode_name_lt", "MRL.C10A.step_off_le", "MRL.C10A.oversize_assert_fires"],
-        "examples": 2,
-        "modules": ["MRL.Props.C10", "MRL.Props.C11", "MRL.Props.C08", "MRL.Props.C10Asserts"],
+                     "MRL.C10A.writeEntry_asserts", "MRL.C10A.recover_asserts", "MRL.C10A.decode_name_lt", "MRL.C10A.step_off_le", "MRL.C10A.oversize_assert_fires",
+                     "MRL.C10V.recoverC_asserts", "MRL.C10V.recoverC_no_panic", "MRL.C10V.clipImage_noOversize", "MRL.C10V.clipImage_id",
+                     "MRL.C10V.recoverC_eq_recover"],
+        "examples": 3,
+        "modules": ["MRL.Props.C10", "MRL.Props.C11", "MRL.Props.C08", "MRL.Props.C10Asserts", "MRL.Props.C10Oversize"],
         "kinds": "ODSNK",
-        "campaigns": {"quick": [("damage", 12, 70), ("bytes", 16, 120), ("edge", 4, 0)],
-                      "thorough": [("damage", 200, 120), ("bytes", 300, 300), ("names", 60, 100), ("edge", 32, 0)]},
+        "campaigns": {"quick": [("damage", 12, 70), ("bytes", 16, 120), ("edge", 4, 0), ("oversize", 8, 0)],
+                      "thorough": [("damage", 200, 120), ("bytes", 300, 300), ("names", 60, 100), ("edge", 32, 0), ("oversize", 96, 0)]},
         "rule": "damage campaign (all classes incl. truncated/removed/duplicated files, transposed blocks) + crafted block content through the "
                 "real reader (valid-CRC frames with hostile type/length fields, orphan Middle/Last, malformed entries) under catch_unwind and "
-                "a 20 s watchdog; read accessors exercised on every recovered log",
+                "a 20 s watchdog; read accessors exercised on every recovered log; oversize campaign: the last WAL file extended by 1-2 blocks "
+                "of valid frames (0..8 or 100 bytes left in the last block), the only record pinning the first file damaged, an empty queue "
+                "with a name of up to 65000 bytes: the GC pass of open writes from beyond the nominal file size (finding F6)",
         "assumptions": ["OS behaviour (odd directory entries, allocation failure) is exercised, not modelled"],
     },
     "C11": {
@@ -165,10 +174,11 @@ PROPS = {
         "examples": 5,
         "kinds": "OSD",
         "campaigns": {"quick": [("fault", 12, 60), ("crash-fault", 16, 50)], "thorough": [("fault", 150, 120), ("crash-fault", 200, 80)]},
-        "rule": "fault campaign (hook H3): for a WAL image spanning 1-5 files, an I/O error (six kinds, transient or persistent) injected at "
+        "rule": "fault campaign (hook H3): for a WAL image spanning 1-5 files, an I/O error (two per index: one of all 20 stable io::ErrorKinds, one of the kinds I/O code tends to special-case; "
+                "transient or persistent) injected at "
                 "every index of the list/open/read calls recovery makes, plus two beyond; oracle: Err(Io) iff the index is reached, else the "
                 "fault-free log; 20 s watchdog",
-        "assumptions": ["ErrorKind::UnexpectedEof is excluded: read_exact's short-file signal is handled by design"],
+        "assumptions": ["an UnexpectedEof raised by read_exact itself is the short-file signal by design (read_block); one injected at the call boundary must be reported like any other kind"],
     },
     "C12": {
         "theorems": ["MRL.C12C.C12_crash", "MRL.C12C.C12_damage", "MRL.C12C.allOrSuffix_of_replay",
